@@ -521,7 +521,7 @@ func c14Gen(r *vf.Rand) c14Case {
 		c.Def = d
 	}
 
-	c.Rule.Exec = c14GenExec(r, bad, 6, 70)
+	c.Rule.Exec = c14GenExec(r, bad, 6, 78)
 	c.Rule.Eh = c14GenEh(r, bad)
 
 	if r.Intn(100) < 55 {
@@ -950,20 +950,22 @@ type c14Obs struct {
 	Class  string   `json:"class,omitempty"` // error class of a rejection (histogram only)
 }
 
-// Execute for the 12 probes, in the order of Model.probes
-func c14Runs(rul rule.Rule, path string) []c14Run {
+// the 12 probes, in the order of Model.probes, through [exec] (rule.Rule.Execute or rule.Executor.Execute)
+func c14RunsVia(exec func(heimdall.Context) (rule.Backend, error), path string) []c14Run {
 	var runs []c14Run
 
 	for _, fail := range []int{c14FailNone, c14FailAuthn, c14FailMid, c14FailFin} {
 		for _, meth := range c14Methods {
 			p := &c14Probe{fail: fail}
-			_, err := rul.Execute(c14NewCtx(meth, path, p))
+			_, err := exec(c14NewCtx(meth, path, p))
 			runs = append(runs, c14Run{Err: err != nil, Trace: p.log})
 		}
 	}
 
 	return runs
 }
+
+func c14Runs(rul rule.Rule, path string) []c14Run { return c14RunsVia(rul.Execute, path) }
 
 func c14ObserveRule(rul rule.Rule, path string) *c14RObs {
 	return &c14RObs{Runs: c14Runs(rul, path), Bt: rul.AllowsBacktracking()}
@@ -1133,11 +1135,21 @@ func c14CoqEh(s c14Step) string {
 	return vf.CoqApp("eh", c14CoqKey(s.Eh, c14StubOK(s.Eh, s.Cfg)), c14CoqIf(s.If), c14CoqCfg(s.Cfg))
 }
 
+// compact rendering (the observations are most of a case file): (ta 1 0) = authenticator "1" without override,
+// (tf 2 3) = finalizer "2" with override marker 2; (rt [..]) / (rf [..]) = Execute returned an error / did not
 func c14CoqT(e c14T) string {
-	return vf.CoqApp("t", e.K, vf.CoqNat(e.ID), vf.CoqOpt(e.Cfg >= 0, vf.CoqNat(e.Cfg)))
+	f := map[string]string{"KAuthn": "ta", "KAuthz": "tz", "KCtx": "tc", "KFin": "tf", "KEh": "te"}[e.K]
+
+	return fmt.Sprintf("(%s %d %d)", f, e.ID, e.Cfg+1)
 }
 
-func c14CoqRun(r c14Run) string { return vf.CoqApp("rn", vf.CoqBool(r.Err), vf.CoqListOf(r.Trace, c14CoqT)) }
+func c14CoqRun(r c14Run) string {
+	if r.Err {
+		return "(rt " + vf.CoqListOf(r.Trace, c14CoqT) + ")"
+	}
+
+	return "(rf " + vf.CoqListOf(r.Trace, c14CoqT) + ")"
+}
 
 func c14CoqRObs(o *c14RObs) string {
 	return vf.CoqApp("ro", vf.CoqListOf(o.Runs, c14CoqRun), vf.CoqBool(o.Bt))
@@ -1463,26 +1475,47 @@ func c14RunRuleSet(t *testing.T, c c14SetCase) c14SetObs {
 		return obs
 	}
 
-	// what the repository serves now: one lookup per path /p0../p3, then the probes on the rule found
+	obs.Served = c14ServedBy(t, repo, factory, nil)
+
+	return obs
+}
+
+// what the repository serves: one lookup per path /p0../p3, then the probes on the rule found (through the
+// rule itself, or through [exec] — the rule executor of the wired application — if given)
+func c14ServedBy(t *testing.T, repo rule.Repository, factory rule.Factory, exec func(heimdall.Context) (rule.Backend, error)) []c14Served {
+	t.Helper()
+
+	var served []c14Served
+
 	for i := 0; i < 4; i++ {
 		path := fmt.Sprintf("/p%d", i)
 
 		rul, err := repo.FindRule(c14NewCtx("GET", path, nil))
-		switch {
-		case err != nil:
-			obs.Served = append(obs.Served, c14Served{Kind: "none"})
-		case factory.HasDefaultRule() && rul == factory.DefaultRule():
-			obs.Served = append(obs.Served, c14Served{Kind: "default", Runs: c14Runs(rul, path)})
-		default:
-			if rul.ID() != fmt.Sprintf("r%d", i) {
-				t.Fatalf("driver error: path %s is served by rule %q", path, rul.ID())
-			}
+		if err != nil {
+			served = append(served, c14Served{Kind: "none"})
 
-			obs.Served = append(obs.Served, c14Served{Kind: "rule", ID: rul.ID(), Rule: c14ObserveRule(rul, path)})
+			continue
 		}
+
+		run := rul.Execute
+		if exec != nil {
+			run = exec
+		}
+
+		if factory.HasDefaultRule() && rul == factory.DefaultRule() {
+			served = append(served, c14Served{Kind: "default", Runs: c14RunsVia(run, path)})
+
+			continue
+		}
+
+		if rul.ID() != fmt.Sprintf("r%d", i) {
+			t.Fatalf("driver error: path %s is served by rule %q", path, rul.ID())
+		}
+
+		served = append(served, c14Served{Kind: "rule", ID: rul.ID(), Rule: &c14RObs{Runs: c14RunsVia(run, path), Bt: rul.AllowsBacktracking()}})
 	}
 
-	return obs
+	return served
 }
 
 func c14CoqServed(s c14Served) string {
@@ -1516,12 +1549,39 @@ func c14CoqSet(c c14SetCase, o c14SetObs) string {
 		vf.CoqBool(c.Version == config2.CurrentRuleSetVersion), rules, obs)
 }
 
+// a well-formed rule for this default rule and mode (used for the other rules of a set, so that "one bad rule
+// rejects the set" and "a good set replaces the old one" are both exercised)
+func c14GenGoodRule(r *vf.Rand, proxy bool, def *c14Default) c14Rule {
+	c := c14Gen(r)
+	rl := c.Rule
+	rl.Exec = c14GenExec(r, 0, 6, 100)
+	rl.Eh = c14GenEh(r, 0)
+	rl.BadMeth = false
+	rl.Backend = rl.Backend || proxy
+
+	if a, _, _ := c14Stages(rl.Exec); a == 0 && (def == nil || len(rl.Exec) == 0) {
+		rl.Exec = append([]c14Step{c14GenStep(r, 0, 0)}, rl.Exec...)
+	}
+
+	return rl
+}
+
 func c14GenSet(r *vf.Rand) c14SetCase {
 	first := c14Gen(r)
 	c := c14SetCase{Proxy: first.Proxy, Def: first.Def, Rules: []c14Rule{first.Rule}, Op: "create", Version: config2.CurrentRuleSetVersion}
 
-	// further rules are mostly well-formed so that "one bad rule rejects the set" is exercised
+	if r.Intn(100) < 40 {
+		c.Rules[0] = c14GenGoodRule(r, c.Proxy, c.Def)
+	}
+
+	// further rules are mostly well-formed
 	for i, n := 0, r.Intn(3); i < n; i++ {
+		if r.Intn(100) < 85 {
+			c.Rules = append(c.Rules, c14GenGoodRule(r, c.Proxy, c.Def))
+
+			continue
+		}
+
 		more := c14Gen(r)
 		more.Rule.Backend = more.Rule.Backend || first.Proxy && r.Intn(100) < 90
 		c.Rules = append(c.Rules, more.Rule)
@@ -1609,449 +1669,4 @@ func TestVerifC14RuleSet(t *testing.T) {
 	for i := 0; i < n; i++ {
 		emit("generated", c14GenSet(root.Fork(uint64(i))))
 	}
-}
-
-// ---- stream 3: the real mechanism factory over a catalogue of real mechanisms --------------------
-
-type c14RealMech struct {
-	id, typ string
-	conf    map[string]any
-	good    string // name of the one override this type accepts besides the empty one ("*": ignores overrides)
-}
-
-//nolint:gochecknoglobals
-var c14Catalogue = map[string][]c14RealMech{
-	"authenticator": {
-		{"a0", "anonymous", map[string]any{"subject": "s0"}, "subject"},
-		{"a1", "anonymous", nil, "subject"},
-		{"a2", "unauthorized", nil, "*"},
-	},
-	"authorizer": {
-		{"z0", "allow", nil, "*"},
-		{"z1", "deny", nil, "*"},
-		{"z2", "cel", map[string]any{"expressions": []any{map[string]any{"expression": "true == true"}}}, "expressions"},
-	},
-	"contextualizer": {
-		{"c0", "generic", map[string]any{"endpoint": map[string]any{"url": "http://127.0.0.1:1/c0"}}, "values"},
-		{"c1", "generic", map[string]any{"endpoint": map[string]any{"url": "http://127.0.0.1:1/c1"}, "values": map[string]any{"k": "v"}}, "values"},
-	},
-	"finalizer": {
-		{"f0", "header", map[string]any{"headers": map[string]any{"X-A": "a"}}, "headers"},
-		{"f1", "noop", nil, "*"},
-		{"f2", "header", map[string]any{"headers": map[string]any{"X-B": "{{ .Subject.ID }}"}}, "headers"},
-	},
-	"error_handler": {
-		{"e0", "default", nil, ""},
-		{"e1", "redirect", map[string]any{"to": "http://login.example.com/"}, ""},
-		{"e2", "www_authenticate", map[string]any{"realm": "r"}, "realm"},
-	},
-}
-
-//nolint:gochecknoglobals
-var c14Overrides = map[string]map[string]any{
-	"empty":       {},
-	"subject":     {"subject": "o"},
-	"expressions": {"expressions": []any{map[string]any{"expression": "Request.Method == \"GET\""}}},
-	"values":      {"values": map[string]any{"a": "b"}},
-	"headers":     {"headers": map[string]any{"X-O": "o"}},
-	"realm":       {"realm": "q"},
-	"unknown":     {"zz_unknown_option": "x"},
-	// wrong type / invalid content of the one option the type has
-	"bad-subject":     {"subject": []any{"a"}},
-	"bad-expressions": {"expressions": []any{map[string]any{"expression": "foo("}}},
-	"bad-values":      {"values": 17},
-	"bad-headers":     {"headers": 17},
-	"bad-realm":       {"realm": []any{"a"}},
-	"bad-":            {"to": "http://elsewhere.example.com/"},
-	"bad-*":           {"anything": 1},
-}
-
-func c14RealOf(name string, k c14Key) (c14RealMech, bool) {
-	cat := c14Catalogue[name]
-	if !k.Known || k.NotStr != 0 {
-		return c14RealMech{}, false
-	}
-
-	return cat[k.ID%len(cat)], true
-}
-
-// the reference as written in the rule: a catalogue id, an id of another kind, or an id nobody has
-func c14RealRef(name string, k c14Key) any {
-	if k.NotStr != 0 {
-		return c14KeyVal(k)
-	}
-
-	if m, ok := c14RealOf(name, k); ok {
-		return m.id
-	}
-
-	if k.WrongKind {
-		other := map[string]string{"authenticator": "authorizer", "authorizer": "finalizer", "contextualizer": "authenticator",
-			"finalizer": "error_handler", "error_handler": "contextualizer"}[name]
-
-		return c14Catalogue[other][k.ID%len(c14Catalogue[other])].id
-	}
-
-	return fmt.Sprintf("%c%d", name[0], 10+k.ID)
-}
-
-func c14RealFirst(s c14Step) (string, c14Key, bool) {
-	for _, e := range []struct {
-		name string
-		k    c14Key
-	}{{"authenticator", s.Authn}, {"authorizer", s.Authz}, {"contextualizer", s.Ctx}, {"finalizer", s.Fin}, {"error_handler", s.Eh}} {
-		if e.k.Present {
-			return e.name, e.k, true
-		}
-	}
-
-	return "", c14Key{}, false
-}
-
-// the override a step carries: chosen for the type of the first mechanism the step names
-func c14RealOverride(s c14Step) (string, any, bool) {
-	switch s.Cfg {
-	case "nil":
-		return "", nil, false
-	case "scalar":
-		return "scalar", "scalar", true
-	case "empty":
-		return "empty", c14Overrides["empty"], true
-	}
-
-	good := "subject"
-
-	if name, k, ok := c14RealFirst(s); ok {
-		if m, ok := c14RealOf(name, k); ok {
-			good = m.good
-		}
-	}
-
-	name := "unknown"
-
-	switch s.Cfg {
-	case "good":
-		name = good
-		if good == "" || good == "*" {
-			name = "empty"
-		}
-	case "badtype":
-		name = "bad-" + good
-	}
-
-	return name, c14Overrides[name], true
-}
-
-// the driver's table: does a mechanism of this catalogue entry accept this override (transcribed from the
-// documentation of the mechanism types: which options a type has; types without options ignore overrides,
-// the default and redirect error handlers cannot be reconfigured)
-func c14RealOK(name string, k c14Key, s c14Step) bool {
-	m, ok := c14RealOf(name, k)
-	if !ok {
-		return false
-	}
-
-	ovr, _, present := c14RealOverride(s)
-
-	return !present || ovr == "empty" || m.good == "*" || (ovr == m.good && ovr != "scalar")
-}
-
-func c14RealEntries(s c14Step) []c14KV {
-	return c14StepEntries(s, func(k c14Key, name string) any { return c14RealRef(name, k) },
-		func(s c14Step) (any, bool) { _, v, ok := c14RealOverride(s); return v, ok })
-}
-
-func c14RealCoqCfg(s c14Step) string {
-	switch s.Cfg {
-	case "nil":
-		return "CfgNil"
-	case "scalar":
-		return "CfgBad"
-	}
-
-	return "(CfgMap 0%nat)"
-}
-
-func c14RealCoqKey(name string, k c14Key, s c14Step) string {
-	if !k.Present {
-		return "None"
-	}
-
-	id := k.ID
-	if m, ok := c14RealOf(name, k); ok {
-		id = int(m.id[1] - '0')
-	}
-
-	return "(Some (kv " + vf.CoqOpt(k.NotStr == 0, vf.CoqNat(id)) + " " + vf.CoqBool(c14RealOK(name, k, s)) + "))"
-}
-
-func c14RealCoqStep(s c14Step) string {
-	return vf.CoqApp("st", c14RealCoqKey("authenticator", s.Authn, s), c14RealCoqKey("authorizer", s.Authz, s),
-		c14RealCoqKey("contextualizer", s.Ctx, s), c14RealCoqKey("finalizer", s.Fin, s), c14CoqIf(s.If), c14RealCoqCfg(s))
-}
-
-func c14RealCoqEh(s c14Step) string {
-	return vf.CoqApp("eh", c14RealCoqKey("error_handler", s.Eh, s), c14CoqIf(s.If), c14RealCoqCfg(s))
-}
-
-func c14RealGen(r *vf.Rand) c14Case {
-	c := c14Gen(r)
-
-	fix := func(ss []c14Step) {
-		for i := range ss {
-			switch x := r.Intn(100); {
-			case x < 45:
-				ss[i].Cfg = "nil"
-			case x < 55:
-				ss[i].Cfg = "empty"
-			case x < 75:
-				ss[i].Cfg = "good"
-			case x < 85:
-				ss[i].Cfg = "unknown"
-			case x < 95:
-				ss[i].Cfg = "badtype"
-			default:
-				ss[i].Cfg = "scalar"
-			}
-		}
-	}
-
-	if c.Def != nil {
-		c.Def.Via = "struct"
-
-		for i := range c.Def.Exec {
-			if c.Def.Exec[i].Cfg != "nil" {
-				c.Def.Exec[i].Cfg = vf.Pick(r, []string{"good", "good", "empty", "unknown"})
-			}
-		}
-
-		for i := range c.Def.Eh {
-			if c.Def.Eh[i].Cfg != "nil" {
-				c.Def.Eh[i].Cfg = vf.Pick(r, []string{"good", "empty"})
-			}
-		}
-	}
-
-	fix(c.Rule.Exec)
-	fix(c.Rule.Eh)
-
-	return c
-}
-
-type c14IDs struct {
-	Sc []string `json:"sc"`
-	Sh []string `json:"sh"`
-	Fi []string `json:"fi"`
-	Eh []string `json:"eh"`
-	Bt bool     `json:"bt"`
-}
-
-type c14RealObs struct {
-	Status string  `json:"status"`
-	IDs    *c14IDs `json:"ids,omitempty"`
-	Err    string  `json:"err,omitempty"`
-	Class  string  `json:"class,omitempty"`
-}
-
-// the ids of the created mechanisms, read from the rule (in-package); anything unexpected here is a
-// failing driver, never an observation
-func c14ReadIDs(t *testing.T, rul rule.Rule) *c14IDs {
-	t.Helper()
-
-	impl, ok := rul.(*ruleImpl)
-	if !ok {
-		t.Fatalf("driver error: the rule factory returned a %T", rul)
-	}
-
-	ids := &c14IDs{Bt: rul.AllowsBacktracking()}
-
-	for _, a := range impl.sc {
-		withID, ok := a.(interface{ ID() string })
-		if !ok {
-			t.Fatalf("driver error: authenticator of type %T has no ID()", a)
-		}
-
-		ids.Sc = append(ids.Sc, withID.ID())
-	}
-
-	for _, h := range impl.sh {
-		ids.Sh = append(ids.Sh, h.ID())
-	}
-
-	for _, h := range impl.fi {
-		ids.Fi = append(ids.Fi, h.ID())
-	}
-
-	for _, h := range impl.eh {
-		ids.Eh = append(ids.Eh, h.ID())
-	}
-
-	return ids
-}
-
-func c14CoqID(t *testing.T) func(string) string {
-	return func(id string) string {
-		kinds := map[byte]string{'a': "KAuthn", 'z': "KAuthz", 'c': "KCtx", 'f': "KFin", 'e': "KEh"}
-		if len(id) != 2 || kinds[id[0]] == "" || id[1] < '0' || id[1] > '9' {
-			t.Fatalf("driver error: unexpected mechanism id %q", id)
-		}
-
-		return "(" + kinds[id[0]] + ", " + vf.CoqNat(int(id[1]-'0')) + ")"
-	}
-}
-
-func c14RealCoq(t *testing.T, c c14Case, o c14RealObs) string {
-	var obs string
-
-	switch o.Status {
-	case "factory_failed":
-		obs = "FactoryFailed"
-	case "factory_panic":
-		obs = "FactoryPanic"
-	case "rejected":
-		obs = "(Loaded Rejected)"
-	case "panic":
-		obs = "(Loaded Panic)"
-	default:
-		f := c14CoqID(t)
-		obs = "(Loaded (Ok " + vf.CoqApp("io", vf.CoqListOf(o.IDs.Sc, f), vf.CoqListOf(o.IDs.Sh, f), vf.CoqListOf(o.IDs.Fi, f),
-			vf.CoqListOf(o.IDs.Eh, f), vf.CoqBool(o.IDs.Bt)) + "))"
-	}
-
-	return vf.CoqApp("csi", vf.CoqBool(c.Proxy), c14CoqDefault(c.Def, c14RealCoqStep, c14RealCoqEh),
-		c14CoqRule(c.Rule, c14RealCoqStep, c14RealCoqEh), obs)
-}
-
-func c14RealFactory(t *testing.T) mechanisms.MechanismFactory {
-	t.Helper()
-
-	protos := func(name string) []config.Mechanism {
-		var out []config.Mechanism
-		for _, m := range c14Catalogue[name] {
-			out = append(out, config.Mechanism{ID: m.id, Type: m.typ, Config: m.conf})
-		}
-
-		return out
-	}
-
-	hf, err := mechanisms.NewMechanismFactory(&config.Configuration{Prototypes: &config.MechanismPrototypes{
-		Authenticators:  protos("authenticator"),
-		Authorizers:     protos("authorizer"),
-		Contextualizers: protos("contextualizer"),
-		Finalizers:      protos("finalizer"),
-		ErrorHandlers:   protos("error_handler"),
-	}}, zerolog.Nop(), nil, nil, nil)
-	if err != nil {
-		t.Fatalf("driver error: the real mechanism factory refuses the catalogue: %v", err)
-	}
-
-	return hf
-}
-
-func c14RealRun(t *testing.T, hf mechanisms.MechanismFactory, c c14Case) c14RealObs {
-	t.Helper()
-
-	f, status, msg := c14NewFactory(hf, c14DefaultConf(t, c.Def, c14RealEntries), c.Proxy)
-	if f == nil {
-		return c14RealObs{Status: status, Err: msg}
-	}
-
-	rul, o := c14Create(f, c.Rule.Extra.Version, c.Rule.Extra.SrcID, c14RuleConfig(c.Rule, "r", "/a", c14RealEntries))
-	ro := c14RealObs{Status: o.Status, Err: o.Err, Class: o.Class}
-
-	if rul != nil {
-		ro.IDs = c14ReadIDs(t, rul)
-	}
-
-	return ro
-}
-
-func c14RealCorpus() []c14Case {
-	k := func(id int) c14Key { return c14Key{Present: true, ID: id, Known: true} }
-	au := c14Step{Authn: k(0), If: "nil", Cfg: "nil"}
-	ex := c14Extra{SrcID: "src", Version: "1alpha4"}
-	mk := func(steps []c14Step, eh []c14Step) c14Case { return c14Case{Rule: c14Rule{Exec: steps, Eh: eh, Extra: ex}} }
-
-	return []c14Case{
-		mk([]c14Step{{Authn: k(0), If: "nil", Cfg: "good"}, {Authz: k(2), If: "c0", Cfg: "good"}, {Ctx: k(0), If: "nil", Cfg: "good"}, {Fin: k(0), If: "nil", Cfg: "good"}},
-			[]c14Step{{Eh: k(2), If: "nil", Cfg: "good"}, {Eh: k(0), If: "nil", Cfg: "nil"}}),
-		// bad overrides of every type that has options
-		mk([]c14Step{{Authn: k(0), If: "nil", Cfg: "unknown"}}, nil),
-		mk([]c14Step{{Authn: k(1), If: "nil", Cfg: "badtype"}}, nil),
-		mk([]c14Step{au, {Authz: k(2), If: "nil", Cfg: "badtype"}}, nil),
-		mk([]c14Step{au, {Ctx: k(1), If: "nil", Cfg: "unknown"}}, nil),
-		mk([]c14Step{au, {Fin: k(0), If: "nil", Cfg: "badtype"}}, nil),
-		mk([]c14Step{au}, []c14Step{{Eh: k(2), If: "nil", Cfg: "unknown"}}),
-		mk([]c14Step{au}, []c14Step{{Eh: k(0), If: "nil", Cfg: "unknown"}}),
-		mk([]c14Step{au}, []c14Step{{Eh: k(1), If: "nil", Cfg: "badtype"}}),
-		// unknown id, id of another kind
-		mk([]c14Step{au, {Authz: c14Key{Present: true, ID: 1}, If: "nil", Cfg: "nil"}}, nil),
-		mk([]c14Step{au, {Fin: c14Key{Present: true, ID: 1, WrongKind: true}, If: "nil", Cfg: "nil"}}, nil),
-		// types without options ignore an override
-		mk([]c14Step{{Authn: k(2), If: "nil", Cfg: "unknown"}, {Authz: k(0), If: "nil", Cfg: "badtype"}, {Fin: k(1), If: "nil", Cfg: "unknown"}}, nil),
-	}
-}
-
-func TestVerifC14Real(t *testing.T) {
-	w := vf.NewWriter()
-	defer w.Close()
-
-	hf := c14RealFactory(t)
-	root := vf.NewRand(vf.Seed() + 2000003)
-	n := vf.N(400)
-	idx := 0
-
-	emit := func(stream string, c c14Case) {
-		if vf.Want(idx) {
-			o := c14RealRun(t, hf, c)
-			tags := []string{"real-status:" + o.Status, fmt.Sprintf("real-scoped:%v", c14Scoped(c))}
-
-			if o.Class != "" {
-				tags = append(tags, "real-reject-class:"+o.Class)
-			}
-
-			for _, s := range append(append([]c14Step{}, c.Rule.Exec...), c.Rule.Eh...) {
-				if name, k, ok := c14RealFirst(s); ok {
-					if m, ok := c14RealOf(name, k); ok {
-						ovr, _, _ := c14RealOverride(s)
-						tags = append(tags, fmt.Sprintf("real-override:%s/%s=%v", m.typ, strings.TrimSuffix(ovr, "-"+m.good), c14RealOK(name, k, s)))
-					} else {
-						tags = append(tags, "real-reference:unknown")
-					}
-				}
-			}
-
-			w.Put(vf.Obs{
-				I: idx, Stream: stream, In: map[string]any{"case": c, "rule": c14RuleConfig(c.Rule, "r", "/a", c14RealEntries)}, Out: o,
-				Coq: c14RealCoq(t, c, o), Nontrivial: c14Scoped(c) && (o.Status == "ok" || o.Status == "rejected") && len(c.Rule.Exec) > 0,
-				Tags: c14Dedup(tags),
-			})
-		}
-
-		idx++
-	}
-
-	for _, c := range c14RealCorpus() {
-		emit("corpus", c)
-	}
-
-	for i := 0; i < n; i++ {
-		emit("generated", c14RealGen(root.Fork(uint64(i))))
-	}
-}
-
-func c14Dedup(tags []string) []string {
-	seen := map[string]bool{}
-
-	var out []string
-
-	for _, t := range tags {
-		if !seen[t] {
-			seen[t] = true
-
-			out = append(out, t)
-		}
-	}
-
-	return out
 }
